@@ -2,7 +2,8 @@
 
 Authenticator level: every algorithm preference list of length 0..3 over {ES256, RS256, EdDSA, unknown} x requested
 credential-id length {0,15,16,40,64,65,255} x counter on/off x store empty/non-empty (CerMC_C02.cfg) and histories of
-three registrations over two RPs (CerMC_C02hist.cfg).  Client level (CerMC_C02client.cfg): challenges, client-data modes,
+three registrations over two RPs (CerMC_C02hist.cfg), and of repeated registrations for one account on the shipped
+MemoryStore (CerMC_C02histmem.cfg: every registration adds exactly one record and removes none).  Client level (CerMC_C02client.cfg): challenges, client-data modes,
 origins / RP IDs, empty preference list = WebAuthn defaults.  Every behaviour is replayed; the relying-party role of
 the harness reads the returned bytes independently (own authenticator-data decoder, sha2, p256) and the C02 invariants
 judge its verdicts.
@@ -16,6 +17,7 @@ PREFIXES = ["C02.", "C01.", "Any.Crash"]
 def run(chk):
     cerlib.run_config(chk, "C02", PREFIXES)
     cerlib.run_config(chk, "C02hist", PREFIXES)
+    cerlib.run_config(chk, "C02histmem", PREFIXES)
     cerlib.run_config(chk, "C02client" if chk.tier == "thorough" else "C02clientQ", PREFIXES)
     cerlib.random_histories(chk, PREFIXES, quick_n=0)
     cerlib.finish_cov(chk, "one behaviour per (algorithm list, id length, counter flag, store) and per registration history; client: per (challenge class, client-data mode, origin/RP-ID class, algorithm list)",
